@@ -665,12 +665,47 @@ thr_enabled(Thr *t)
 }
 
 // make a picked thread runnable: perform its unblocking action
+static inline void
+held_add(Thr *t, unsigned id)
+{
+	if (t->nheld < 24)
+		t->held[t->nheld++] = id;
+}
+static inline void
+held_del(Thr *t, unsigned id)
+{
+	for (int i = t->nheld - 1; i >= 0; i--)
+		if (t->held[i] == id) {
+			t->held[i] = t->held[--t->nheld];
+			return;
+		}
+}
+
+// lockset monitors: which mutexes does the calling thread own right now?
+extern "C" int
+sim_held_mutexes(unsigned *out, int max)
+{
+	Thr *t = tl_self;
+	if (t == NULL)
+		return -1;
+	int n = t->nheld < max ? t->nheld : max;
+	for (int i = 0; i < n; i++)
+		out[i] = t->held[i];
+	return n;
+}
+extern "C" int
+sim_self_tid(void)
+{
+	return tl_self ? tl_self->id : -1;
+}
+
 static void
 thr_unblock(Thr *t)
 {
 	switch (t->st) {
 	case ST_MUTEX:
 		((SMutex *) t->wobj)->owner = t->id + 1;
+		held_add(t, ((SMutex *) t->wobj)->id);
 		break;
 	case ST_SLEEP:
 	case ST_EPOLL:
@@ -1147,6 +1182,7 @@ __wrap_pthread_mutex_lock(pthread_mutex_t *m)
 	}
 	if (s->owner == 0) {
 		s->owner = self->id + 1;
+		held_add(self, s->id);
 		return 0;
 	}
 	self->st      = ST_MUTEX;
@@ -1168,6 +1204,7 @@ __wrap_pthread_mutex_unlock(pthread_mutex_t *m)
 	if (s->owner != self->id + 1)
 		return EPERM;
 	s->owner = 0;
+	held_del(self, s->id);
 	sched_point(EV_MUNLOCK, s->id, 0);
 	return 0;
 }
@@ -1210,6 +1247,7 @@ cond_wait_common(pthread_cond_t *c, pthread_mutex_t *m, uint64_t deadline)
 		return EPERM;
 	sched_trace(EV_CWAIT, sc->id, sm->id);
 	sm->owner      = 0;
+	held_del(self, sm->id);
 	self->timedout = false;
 	sim_fp_walk(self->wsite, 6, 1);
 	if (G.cfg.spurious_wake_p > 0 &&
